@@ -9,11 +9,30 @@ import fiddle as fdl
 from harness import common, family, graphs, targets
 
 
+def _delegated_cases(tier, r):
+  """Cases of C05's check that exercise clauses this property shares with it."""
+  import importlib
+  mod = importlib.import_module('harness.props.C05')
+  n = 0
+  for tag, case in mod.cases(tier, r):
+    if not case.get('guard'):
+      n += 1
+      yield 'via_C05', {'delegate': 'C05', 'case': case}
+      if n >= (60 if tier == 'quick' else 600):
+        return
+
+
 def cases(tier, r):
+  yield from _cases(tier, r)
+  yield from _delegated_cases(tier, r)
+
+
+def _cases(tier, r):
   n = 1500 if tier == 'quick' else 25000
   for i in range(n):
     size = r.choice([3, 5, 8, 12, 18]) if tier == 'quick' else r.choice([3, 5, 8, 12, 20, 40])
-    yield 'dag', {'seed': r.getrandbits(48), 'size': size, 'positional': r.random() < 0.7}
+    yield 'dag', {'seed': r.getrandbits(48), 'size': size, 'positional': r.random() < 0.7,
+                  'duck': r.choice([0, 0, 0.3]), 'tagged_values': r.choice([0, 0, 0.25])}
   # deep chains up to a fraction of the recursion budget
   for depth in ((30, 60) if tier == 'quick' else (30, 60, 100, 140)):
     yield 'deep', {'seed': r.getrandbits(48), 'size': 2, 'deep': depth, 'positional': False}
@@ -23,15 +42,23 @@ def make_root(case):
   import random
   r = random.Random(case['seed'])
   root = graphs.gen_graph(r, size=case['size'], positional=case.get('positional', True),
-                          nt_bias=case.get('nt_bias', 0.0))
+                          nt_bias=case.get('nt_bias', 0.0), duck=case.get('duck', 0.0),
+                          tagged_values=case.get('tagged_values', 0.0))
   for _ in range(case.get('deep', 0)):
     root = [fdl.Config(graphs.node_fn(1, 0), p=root)] if r.random() < 0.5 else fdl.Config(graphs.node_fn(1, 1), q=root)
   return root
 
 
 def execute(case):
+  if case.get('delegate'):
+    import importlib
+    mod = importlib.import_module('harness.props.' + case['delegate'])
+    real, req = mod.execute(case['case'])
+    real = dict(real)
+    real['__delegate'] = case['delegate']
+    return real, req
   root = make_root(case)
-  heap, enc = graphs.encode(root)
+  heap, enc = graphs.encode(root, transparent_tagged=True)
   obs = {'n_cfg': sum(1 for o in heap['objs'] if o['k'] == 'cfg')}
   del targets.LOG[:]
   try:
@@ -111,6 +138,10 @@ def built_ids(res):
 
 
 def compare(real, model):
+  if isinstance(real, dict) and real.get('__delegate'):
+    import importlib
+    inner = {k: v for k, v in real.items() if k != '__delegate'}
+    return importlib.import_module('harness.props.' + real['__delegate']).compare(inner, model)
   diffs = []
   rb, mb = real['build'], model['build']
   if 'raised' in rb or 'err' in mb:
@@ -126,6 +157,9 @@ def compare(real, model):
 
 
 def oracle(case, real):
+  if case.get('delegate'):
+    import importlib
+    return importlib.import_module('harness.props.' + case['delegate']).oracle(case['case'], real)
   rb = real['build']
   ref = real['ref_canon']
   if 'raised' in rb:
@@ -150,6 +184,10 @@ def oracle(case, real):
 
 
 def nontrivial(case, real):
+  if case.get('delegate'):
+    import importlib, json as _json
+    k = importlib.import_module('harness.props.' + case['delegate']).nontrivial(case['case'], real)
+    return None if k is None else ('via', _json.dumps(k, default=str))
   if 'raised' in real['build']:
     return None
   c = json.dumps(real['build']['canon'])
